@@ -123,7 +123,19 @@ XT_DOCS = [f'<root {_XSI}><a><item xsi:type="ext"><k>a</k><x>1</x><x>2</x></item
            f'<item {_XSI} xsi:type="ext"><k>a</k><x>7</x></item>', f'<root {_XSI}><b><item xsi:type="nope"><k>a</k></item></b></root>']
 
 
-def eval_xsi_histories(ver):
+# a local declaration beside a lax wildcard that resolves to a same-named global of another type: the consistency of a wildcard-matched child depends on the model it sits in,
+# not on what the declaration met in earlier documents
+XT2_SCHEMA = '''<xs:schema xmlns:xs="http://www.w3.org/2001/XMLSchema">
+  <xs:complexType name="G"><xs:sequence><xs:element name="v" type="xs:string"/></xs:sequence></xs:complexType>
+  <xs:complexType name="Gd"><xs:complexContent><xs:extension base="G"><xs:sequence><xs:element name="w" type="xs:string" minOccurs="0"/></xs:sequence></xs:extension></xs:complexContent></xs:complexType>
+  <xs:element name="g" type="G"/>
+  <xs:element name="root"><xs:complexType><xs:sequence><xs:element name="g" type="xs:string"/><xs:any processContents="lax" minOccurs="0" maxOccurs="unbounded"/></xs:sequence></xs:complexType></xs:element>
+  <xs:element name="free"><xs:complexType><xs:sequence><xs:any processContents="lax" minOccurs="0" maxOccurs="unbounded"/></xs:sequence></xs:complexType></xs:element></xs:schema>'''
+XT2_DOCS = [f'<g {_XSI} xsi:type="G"><v>a</v></g>', f'<g {_XSI} xsi:type="Gd"><v>a</v><w>b</w></g>', '<root><g>text</g><g><v>a</v></g></root>', f'<root {_XSI}><g>text</g><g xsi:type="Gd"><v>a</v><w>b</w></g></root>',
+            f'<free {_XSI}><g xsi:type="Gd"><v>a</v></g><g><v>a</v></g></free>', '<root><g>text</g></root>', f'<root {_XSI}><g>text</g><g xsi:type="xs:string" xmlns:xs="http://www.w3.org/2001/XMLSchema">t</g></root>']
+
+
+def eval_xsi_histories(ver, schema_text_=None, docs_=None):
     """xsi:type on a shared global declaration met under one identity scope, then under another; documents whose root is named like a local element of a type that was reached
     through xsi:type: every document gets, after every other one on the same schema object, the outcome a fresh schema gives it"""
     import xmlschema
@@ -133,11 +145,15 @@ def eval_xsi_histories(ver):
             try: out[name] = f()
             except Exception as e: out[name] = f'{type(e).__name__}'
         return out
-    fresh = [outcome(_cls(ver)(XT_SCHEMA), d) for d in XT_DOCS]; bad = []; n = 0
-    for i, d1 in enumerate(XT_DOCS):
-        for j, d2 in enumerate(XT_DOCS):
+    XS_, DOCS_ = schema_text_ or XT_SCHEMA, docs_ or XT_DOCS
+    if schema_text_ is None:
+        n2, bad2 = eval_xsi_histories(ver, XT2_SCHEMA, XT2_DOCS)
+    else: n2, bad2 = 0, []
+    fresh = [outcome(_cls(ver)(XS_), d) for d in DOCS_]; bad = list(bad2); n = n2
+    for i, d1 in enumerate(DOCS_):
+        for j, d2 in enumerate(DOCS_):
             n += 1
-            s = _cls(ver)(XT_SCHEMA); outcome(s, d1); got = outcome(s, d2)
+            s = _cls(ver)(XS_); outcome(s, d1); got = outcome(s, d2)
             if got != fresh[j]: bad.append(dict(ver=ver, first=d1, then=d2, got={k: v for k, v in got.items() if v != fresh[j][k]}, fresh={k: v for k, v in fresh[j].items() if v != got[k]}))
     return n, bad
 
@@ -153,7 +169,7 @@ def run(tier, seed, open_findings):
     if nk and K not in open_findings:
         fails.append(dict(case=dict(ver='1.0', history=[['iter_errors', MIDRUN]]), observed='a fresh schema reports a spurious substitution error after a mid-run namespace load, a used one does not', required='result equals the fresh-schema result'))
     xr = pmap(eval_xsi_histories, ['1.0', '1.1'], chunk=1); xf = [dict(case=b, observed=dict(got=b['got'], fresh=b['fresh']), required='result equals the fresh-schema result') for _, bb in xr for b in bb]
-    return [result('C10.xsi_type_histories', f'{len(XT_DOCS)} x {len(XT_DOCS)} ordered pairs of documents (xsi:type under two identity scopes, roots named like local elements) x 3 operations x 2 classes', sum(n for n, _ in xr) * 3, xf,
+    return [result('C10.xsi_type_histories', f'{len(XT_DOCS)} x {len(XT_DOCS)} + {len(XT2_DOCS)} x {len(XT2_DOCS)} ordered pairs of documents (xsi:type under two identity scopes, roots named like local elements; a local declaration beside a wildcard that resolves to a same-named global) x 3 operations x 2 classes', sum(n for n, _ in xr) * 3, xf,
                    samples=[dict(first=XT_DOCS[0], then=XT_DOCS[1])], distinct=sum(n for n, _ in xr)),
             result('C10.call_histories', f'{len(hists)} seeded histories of 6 calls over {len(OPS)} operations x {len(DOCS)} documents x 2 classes', len(jobs) * 6, fails, known=({K: nk} if nk and K in open_findings else {}),
                    samples=[dict(history=hists[0][:3])], distinct=len(jobs))]
